@@ -334,7 +334,14 @@ def run_check(pid, tier, seed, replay=None):
     args = [(pid, tier, seed, w, nworkers, per) for w in range(nworkers)]
     ctxm = mp.get_context('fork')
     with ctxm.Pool(nworkers) as pool:
-        results = pool.map(_worker, args, chunksize=1)
+        # overall watchdog (a stuck worker must end as "inconclusive", exit 2, never as a hang or a violation)
+        limit = int(os.environ.get('VERIF_WATCHDOG_S') or (1800 if tier == 'quick' else 6 * 3600))
+        try:
+            results = pool.map_async(_worker, args, chunksize=1).get(timeout=limit)
+        except mp.TimeoutError:
+            pool.terminate()
+            print('INCONCLUSIVE property=%s watchdog: workers still busy after %d s' % (pid, limit))
+            return 2
     merged = {'evaluations': 0, 'nontrivial': set(), 'samples': [], 'counters': collections.Counter(),
               'known': collections.Counter(), 'violations': [], 'inconclusive': [], 'errors': []}
     for r in results:
